@@ -354,6 +354,7 @@ func runC11(w *World, r *Report) {
 	c11RuleA(w, r, subjects, ctxs)
 	c11RuleR(w, r, subjects)
 	c11RuleL(w, r, subjects, derefs)
+	collectorRules(w, r, "", "C11/L-collector")
 	r.assume("generated accessors are pure getters over a tree that subject code never mutates (checked: no AddChild/Set*/RemoveLastChild call)")
 	r.assume("after a parse without reported syntax errors every mandatory child is present (ANTLR's contract); Rule G establishes the premise")
 }
